@@ -153,7 +153,7 @@ def gram(M):
 # ------------------------------------------------------------------------------------------------
 # generation
 
-PATTERNS = ["dense", "zero_diag", "perm_tri", "late_swap", "ties", "sparse", "first_col_zero_top"]
+PATTERNS = ["dense", "zero_diag", "perm_tri", "late_swap", "ties", "sparse", "first_col_zero_top", "near_unit_pivot"]
 
 
 def gen_int_matrix(rng, r, c, pattern):
@@ -176,6 +176,23 @@ def gen_int_matrix(rng, r, c, pattern):
         for i in range(max(1, r - 1)):
             m[i][0] = 0
         m[r - 1][0] = rnd(nz=True)
+        return m
+    if pattern == "near_unit_pivot":
+        # every pivot is close to 1 but NOT 1 (1 + d, |d| between 1e-9 and 1e-5), a few exactly 1: dividing by such a pivot
+        # matters in the seventh digit
+        m = [[0.0] * c for _ in range(r)]
+        for i in range(r):
+            for j in range(c):
+                if i == j:
+                    m[i][j] = 1.0 if rng.random() < 0.2 else 1.0 + rng.choice([1.0, -1.0]) * rng.choice([2.5e-7, 4e-7, 9e-7, 3e-8, 1e-9, 5e-6])
+                elif j > i:
+                    m[i][j] = float(rnd(-2, 2)) * rng.choice([1.0, 0.5, 0.25])
+                elif rng.random() < 0.3:
+                    m[i][j] = rng.choice([0.25, -0.25, 0.5, -0.125])
+        if rng.random() < 0.4:
+            rows = list(range(r))
+            rng.shuffle(rows)
+            m = [m[i] for i in rows]
         return m
     # triangular based
     n = min(r, c)
@@ -691,8 +708,20 @@ def run(ctx):
                 Are = [[s["A"][i * c_ + j][0] for j in range(c_)] for i in range(r_)]
                 M = [[sum(Are[k][i] * Are[k][j] for k in range(r_)) for j in range(c_)] for i in range(c_)] if s["lsq"] else row_equilibrated(Are)
                 cnd = cond_inf(M) if len(M) == len(M[0]) else float("inf")
+                if not s["lsq"] and len(Are) == len(Are[0]):
+                    # elimination with partial pivoting chooses its pivots by ABSOLUTE size: on rows of very different scale its
+                    # error is governed by the condition number of the matrix as given, not of the row-equilibrated one (both
+                    # the code and the model return rounding noise on a system whose rows are 1e18 apart - checked against
+                    # exact rational arithmetic)
+                    cr = cond_inf(Are)
+                    cnd = max(cnd, cr) if cr == cr else float("inf")
                 rt = min(1e-3, 1e-9 + 1e-13 * cnd) if cnd == cnd else 1e-3
                 good = True
+                if not (cnd == cnd) or cnd > 1e12:
+                    # singular to working precision: the VALUES are not compared at all (outcome classes and shapes were)
+                    ctx.count("systems singular to working precision (cond > 1e12 as given): values not compared")
+                    ok = True
+                    continue
                 for lo, hi in orders(kind, m):
                     blk = [x for e in va[0] + vb[0] for x in e[lo:hi] if x == x and abs(x) != float("inf")]
                     big = max([abs(x) for x in blk] + [0.0])
